@@ -174,3 +174,32 @@ pub fn b(v: &Value) -> bool {
 pub fn arr(v: &Value) -> &Vec<Value> {
   v.as_array().unwrap_or_else(|| tool_error(&format!("expected array, got {v}")))
 }
+
+/// Runs `f` over chunks of `cases` on all cores and merges the per-chunk reports.
+pub fn par_replay(cases: &[Value], rep: &mut Report, f: impl Fn(&[Value], &mut Report) + Sync) {
+  let threads = std::thread::available_parallelism().map(|n| n.get()).unwrap_or(4).min(16);
+  if cases.len() < 64 || threads == 1 {
+    f(cases, rep);
+    return;
+  }
+  let chunk = cases.len().div_ceil(threads);
+  let reports: Vec<Report> = std::thread::scope(|sc| {
+    let hs: Vec<_> = cases
+      .chunks(chunk)
+      .map(|c| {
+        let f = &f;
+        sc.spawn(move || {
+          let mut r = Report::new();
+          f(c, &mut r);
+          r
+        })
+      })
+      .collect();
+    hs.into_iter()
+      .map(|h| h.join().unwrap_or_else(|_| tool_error("replay worker died")))
+      .collect()
+  });
+  for r in reports {
+    rep.merge(r);
+  }
+}
